@@ -10,6 +10,7 @@ import (
 	"path/filepath"
 	"regexp"
 	"sort"
+	"strconv"
 	"strings"
 	"time"
 )
@@ -510,13 +511,49 @@ func (p *Proj) renderHelper() string {
 }
 
 func writeIfChanged(p string, content string) error {
-	if b, err := os.ReadFile(p); err == nil && string(b) == content {
-		return nil
+	if _, _, big := bigContent(content); !big {
+		if b, err := os.ReadFile(p); err == nil && string(b) == content {
+			return nil
+		}
 	}
 	if err := os.MkdirAll(filepath.Dir(p), 0o755); err != nil {
 		return err
 	}
-	return os.WriteFile(p, []byte(content), 0o644)
+	return writeContent(p, content)
+}
+
+// bigContent: an abstract content of the form "@@BIG:<n>@@<text>" stands for <text> followed by zero bytes up
+// to a total of n bytes on disk (size classes the engine might treat specially — C02-q2 — without megabytes of JSON).
+func bigContent(content string) (text string, size int64, ok bool) {
+	if !strings.HasPrefix(content, "@@BIG:") {
+		return content, 0, false
+	}
+	rest := content[len("@@BIG:"):]
+	i := strings.Index(rest, "@@")
+	if i < 0 {
+		return content, 0, false
+	}
+	n, err := strconv.ParseInt(rest[:i], 10, 64)
+	if err != nil {
+		return content, 0, false
+	}
+	return rest[i+2:], n, true
+}
+
+// writeContent writes an abstract content to disk (see bigContent).
+func writeContent(p string, content string) error {
+	text, size, big := bigContent(content)
+	if !big {
+		return os.WriteFile(p, []byte(content), 0o644)
+	}
+	os.Remove(p)
+	if err := os.WriteFile(p, []byte(text), 0o644); err != nil {
+		return err
+	}
+	if size > int64(len(text)) {
+		return os.Truncate(p, size)
+	}
+	return nil
 }
 
 // writeBuildFiles renders every package's BUILD.dawn and the helper module (only files whose text changed are rewritten).
@@ -599,14 +636,14 @@ func (e *Edit) apply(p *Proj, root string) error {
 			if err := os.MkdirAll(filepath.Dir(abs(e.Path)), 0o755); err != nil {
 				return err
 			}
-			if err := os.WriteFile(abs(e.Path), []byte(e.Text), 0o644); err != nil {
+			if err := writeContent(abs(e.Path), e.Text); err != nil {
 				return err
 			}
 		}
 	case "samecontent":
 		if root != "" {
 			if c, ok := p.Files[e.Path]; ok {
-				return os.WriteFile(abs(e.Path), []byte(c), 0o644)
+				return writeContent(abs(e.Path), c)
 			}
 		}
 	case "touch":
